@@ -166,6 +166,10 @@ func (i *Interp) runInit(ld *Loaded) (err error) {
 	i.ex.budget = 1 << 40
 	initFn := ld.harness.Func("init")
 	i.call(nil, token.NoPos, initFn, nil)
+	i.onceSnap = map[*Value]bool{}
+	for k, v := range i.onceDone {
+		i.onceSnap[k] = v
+	}
 	// snapshot restorable globals (repo + harness packages)
 	i.snap = map[*ssa.Global]Value{}
 	for g, cell := range i.globals {
@@ -183,6 +187,13 @@ func (i *Interp) restoreGlobals() {
 	i.pools = map[*Value]*poolState{}
 	i.wgCount = map[*Value]int64{}
 	i.depth = 0
+	// a package-level sync.Once of the repository fires again on the next path, like the globals it guards
+	// (Once values inside heap objects built by init, e.g. strings.Replacer, keep their state: so does the object)
+	for g := range i.snap {
+		if cell := i.globals[g]; cell != nil && !i.onceSnap[cell] {
+			delete(i.onceDone, cell)
+		}
+	}
 }
 
 func describePanic(i *Interp, r interface{}) string {
